@@ -1712,3 +1712,60 @@ func checkInsertWithReplace(f *ssa.Function) string {
 	}
 	return ""
 }
+
+// ---- R32: element counts are not taken from Dense.DataSize() ---------------------------------------
+//
+// gorgonia.org/tensor@v0.9.24 dense.go l.124: DataSize() returns 0 for a scalar ("DOUBLE CHECK" in the source)
+// and the length of the backing otherwise. A rank-0 tensor has one element: any size arithmetic fed from
+// DataSize() (the -1 inference of Reshape, allocation sizes, loop bounds) is wrong for exactly the scalars the
+// shape properties quantify over. Shape().TotalSize() and NElements(shape...) give 1.
+func ruleSizeQuirks(c *Ctx, prop string) {
+	var roots []*ssa.Function
+	for _, name := range opsOfProp(prop) {
+		if oi := c.opByName(name); oi != nil {
+			roots = append(roots, oi.methods["Apply"])
+		}
+	}
+	if prop == "C14" || prop == "C03" {
+		for _, f := range c.libFns {
+			if fnPkgPath(f) == pkgOps && f.Parent() == nil && f.Object() != nil && f.Object().Exported() && strings.Contains(f.Name(), "roadcast") {
+				roots = append(roots, f)
+			}
+		}
+	}
+	var fns []*ssa.Function
+	for f := range c.reachFrom(roots) {
+		if isLibFn(f) {
+			fns = append(fns, f)
+		}
+	}
+	fns = append(fns, c.ctlFns...)
+	sort.Slice(fns, func(i, j int) bool { return fname(fns[i]) < fname(fns[j]) })
+	ctl := StDischarged
+	per := map[string]int{}
+	for _, f := range fns {
+		for _, b := range f.Blocks {
+			for _, in := range b.Instrs {
+				cl, ok := in.(*ssa.Call)
+				if !ok {
+					continue
+				}
+				if nm, _ := tensorMethod(cl); nm != "DataSize" {
+					continue
+				}
+				if isControlFn(f) {
+					if f.Name() == "BadDataSize" {
+						ctl = StViolated
+					}
+					continue
+				}
+				per[fname(f)]++
+				c.violate("R32", fmt.Sprintf("R32:datasize:%s#%d", fname(f), per[fname(f)]), c.pos(cl.Pos()),
+					"the element count of a tensor is taken from DataSize(), which gorgonia defines as 0 for a rank-0 tensor (dense.go l.124): size arithmetic based on it (a -1 dimension, an allocation, a loop bound) is wrong for scalars; Shape().TotalSize() / ops.NElements give 1")
+			}
+		}
+	}
+	c.add(Obligation{Rule: "R32", Key: "R32:ctl:bad:BadDataSize", Status: ctl, Control: true, Why: "control: DataSize() in size arithmetic"})
+	c.wantControls = append(c.wantControls, "R32:ctl:bad:BadDataSize")
+	c.discharge("R32", "R32:datasize:scan", "", fmt.Sprintf("%d functions behind this property scanned for DataSize() (positive control reported)", len(fns)-len(c.ctlFns)))
+}
